@@ -6,7 +6,7 @@
   (prices, mark, underlying, greeks) and ints-or-floats (sizes): a float is carried as its exact rational
   value; the four things the code does with floats are parameters of `DCtx`:
     * `toF x`    — `float(x)` of a Decimal/int: the nearest double
-    * `fsub a b` — float subtraction, `fdiv a b` — float division
+    * `fsub a b` — float subtraction, `fdiv a b` — float division, `fadd a b` — float addition
     * `reprD f`  — `Decimal(str(f))`: the shortest decimal that reads back as `f`
   `DCtx.ieee` (driver) implements them with IEEE-754 binary64 through Lean's `Float`; `DCtx.ideal n`
   treats floats as real numbers (theorems).
@@ -25,10 +25,12 @@ structure DCtx where
   fsub  : Rat → Rat → Rat
   fdiv  : Rat → Rat → Rat
   reprD : Rat → Rat
+  fadd  : Rat → Rat → Rat
 
 /-- floats as real numbers -/
 def DCtx.ideal (n : NumCtx) : DCtx :=
-  { num := n, toF := id, fsub := fun a b => a - b, fdiv := fun a b => a / b, reprD := id }
+  { num := n, toF := id, fsub := fun a b => a - b, fdiv := fun a b => a / b, reprD := id,
+    fadd := fun a b => a + b }
 
 /-- exact value of a double, 0 for inf/nan (never produced from the finite inputs the harness sends) -/
 def f2r (f : Float) : Rat := (floatToRat? f).getD 0
@@ -69,7 +71,8 @@ def DCtx.ieee (n : NumCtx) : DCtx :=
     toF := fun x => f2r (ratToFloat x)
     fsub := fun a b => f2r (ratToFloat a - ratToFloat b)
     fdiv := fun a b => f2r (ratToFloat a / ratToFloat b)
-    reprD := shortestRepr }
+    reprD := shortestRepr
+    fadd := fun a b => f2r (ratToFloat a + ratToFloat b) }
 
 /-! ### configuration (TOKEN_CONFIGS) -/
 
@@ -245,6 +248,43 @@ def DState.onGrid (s : DState) : Bool := s.now % (Gen.deribitFreqMinutes : Int) 
 
 def findInstr (book : List Instr) (name : String) : Option Instr := book.find? (fun i => i.name = name)
 
+/-! ### `normalize_order_list`: one side the way an exchange shows it -/
+
+/-- is price `a` strictly better than `b` on this side (asks: lower, bids: higher) -/
+def better (asc : Bool) (a b : Rat) : Bool := if asc then decide (a < b) else decide (b < a)
+
+/-- stable insertion (`sorted` is stable, also with `reverse=True`): `l`, which came earlier in the data than
+    everything in the list, goes in front of the first level that is not strictly better -/
+def insLevel (asc : Bool) (l : Level) : List Level → List Level
+  | [] => [l]
+  | x :: xs => if better asc x.price l.price then x :: insLevel asc l xs else l :: x :: xs
+
+/-- `sorted(orders, key=lambda x: x[0], reverse=not ascending)` -/
+def sortSide (asc : Bool) : List Level → List Level
+  | [] => []
+  | l :: ls => insLevel asc l (sortSide asc ls)
+
+/-- `levels[-1][1] += size`: int + int is exact, anything with a float is a float addition -/
+def addSize (cx : DCtx) (a b : Level) : Level :=
+  if a.isFloat || b.isFloat then { a with size := cx.fadd (cx.toF a.size) (cx.toF b.size), isFloat := true }
+  else { a with size := a.size + b.size }
+
+/-- the merge loop with `cur = levels[-1]` -/
+def mergeGo (cx : DCtx) (cur : Level) : List Level → List Level
+  | [] => [cur]
+  | x :: xs => if cur.price = x.price then mergeGo cx (addSize cx cur x) xs else cur :: mergeGo cx x xs
+
+def mergeSide (cx : DCtx) : List Level → List Level
+  | [] => []
+  | l :: ls => mergeGo cx l ls
+
+/-- `normalize_order_list(orders, ascending)`: best price first, one level per price -/
+def normSide (cx : DCtx) (asc : Bool) (ls : List Level) : List Level := mergeSide cx (sortSide asc ls)
+
+/-- the copy of the instrument row `check_transaction` works on -/
+def normInstr (cx : DCtx) (ins : Instr) : Instr :=
+  { ins with asks := normSide cx true ins.asks, bids := normSide cx false ins.bids }
+
 /-! ### matching -/
 
 /-- Decimal division with CPython's error classes -/
@@ -284,7 +324,7 @@ structure Req where
   mult     : Option Rat
 deriving DecidableEq, Repr
 
-/-- result of `check_transaction`: rounded amount, the instrument row, the matched level price -/
+/-- result of `check_transaction`: rounded amount, the (normalised copy of the) instrument row, the matched level price -/
 structure Checked where
   amount : Rat
   ins    : Instr
@@ -305,7 +345,9 @@ def reqPrice (cx : DCtx) (ins : Instr) (r : Req) : Except Err (Option Rat) :=
 def checkTx (cx : DCtx) (c : TokenCfg) (book : List Instr) (r : Req) (isBuy : Bool) : Except Err Checked :=
   match findInstr book r.name with
   | none => .error (.demeter "not-in-orderbook")
-  | some ins =>
+  | some ins0 =>
+    -- orders are matched by price: the row's sides are normalised (best first, one level per price) in a copy
+    let ins := normInstr cx ins0
     if !ins.stateOpen then .error (.demeter "instrument-not-open")
     else if r.amount < c.minAmount then .error (.demeter "below-min-amount")
     else
